@@ -20,7 +20,8 @@ def _extract_index(layout: ak.contents.Content) -> list:
         return [layout.size] + _extract_index(layout.content)
 
     if isinstance(layout, awkward.contents.NumpyArray):
-        return []
+        # an n-dimensional buffer is a regular nesting of its trailing dimensions
+        return [int(n) for n in layout.data.shape[1:]]
 
     if isinstance(layout, awkward.contents.RecordArray):
         return []
